@@ -667,6 +667,7 @@ class VpdAta(VpdBase):
         v["_fw"] = gen.byte_string(rng, 8, "text")
         v["_model"] = gen.byte_string(rng, 40, "text")
         v["_word0"] = rng.choice([0x0040, 0x8580, 0x0C5A, 0x848A, rng.getrandbits(16)])  # general configuration: ATA disk, ATAPI, ...
+        v["_word2"] = rng.choice([0x37C8, 0x738C, 0x8C73, 0xC837, rng.getrandbits(16)])  # specific configuration
         return v
 
     def encode(self, v):
@@ -682,6 +683,7 @@ class VpdAta(VpdBase):
         b[56] = 0xEC
         ident = bytearray(512)
         ident[0], ident[1] = v["_word0"] & 0xFF, v["_word0"] >> 8  # IDENTIFY words are little-endian
+        ident[4], ident[5] = v["_word2"] & 0xFF, v["_word2"] >> 8
         ident[20:40] = v["_serial"]  # words 10-19
         ident[46:54] = v["_fw"]  # words 23-26
         ident[54:94] = v["_model"]  # words 27-46
@@ -692,7 +694,7 @@ class VpdAta(VpdBase):
         e = {k: v[k] for k in ("peripheral_qualifier", "peripheral_device_type", "page_code", "sat_vendor_identification",
                                "sat_product_identification", "sat_product_rev_lvl")}
         e["signature"] = dict(v["_sig"])
-        e["identify"] = {"serial_number": v["_serial"], "firmware_rev": v["_fw"], "model_number": v["_model"],
+        e["identify"] = {"serial_number": v["_serial"], "firmware_rev": v["_fw"], "model_number": v["_model"], "specific_config": v["_word2"],
                          "general_config": {"ata_device": v["_word0"] >> 15, "respose_incomplete": (v["_word0"] >> 2) & 1}}  # ACS: word 0 bit 15, bit 2
         return e
 
